@@ -48,7 +48,7 @@ pub fn exec(op: &str, a: &[Vec<u8>]) -> Option<Resp> {
             let s = need!(scalar_int(&a[1]));
             let r = ladder_int(&s, &u).to_bytes();
             let mut o = vec![];
-            for _ in 0..5 {
+            for _ in 0..10 {
                 o.extend_from_slice(&r);
             }
             Resp::Ok(o)
